@@ -408,6 +408,14 @@ func (g *Gen) fishmen() []int {
 	return out
 }
 
+// alias: the name a new model is stored under; now and then none at all (the model is then only reachable by its data id)
+func (g *Gen) alias() string {
+	if g.R.Chance(6) {
+		return ""
+	}
+	return fmt.Sprintf("alias%d", g.dataSeq)
+}
+
 func containsStr(l []string, x string) bool {
 	for _, y := range l {
 		if y == x {
@@ -536,7 +544,7 @@ func (g *Gen) stakingTx() Op {
 		owner := g.Owners[r.Intn(len(g.Owners))]
 		d := g.newDataId()
 		return Op{K: "store", Creator: n, Provider: n + 1, Signer: owner + 1, Owner: owner + 1, Duration: 3600, Replica: int32(len(g.Nodes) - 2 + r.Intn(3)),
-			Timeout: 100, Alias: fmt.Sprintf("alias%d", g.dataSeq), DataId: d, CommitId: d, Size: uint64(1 + r.Intn(1000)), Operation: 1}
+			Timeout: 100, Alias: g.alias(), DataId: d, CommitId: d, Size: uint64(1 + r.Intn(1000)), Operation: 1}
 	default:
 		return Op{K: "claim", Creator: n}
 	}
@@ -760,7 +768,7 @@ func (g *Gen) tx() Op {
 		d := g.newDataId()
 		g.Datas = append(g.Datas, d)
 		op := Op{K: "store", Creator: gw, Provider: gw + 1, Signer: owner + 1, Owner: owner + 1, Duration: g.durations(),
-			Replica: int32(1 + r.Intn(3)), Timeout: int32(10 + r.Intn(400)), Alias: fmt.Sprintf("alias%d", g.dataSeq), DataId: d, CommitId: d,
+			Replica: int32(1 + r.Intn(3)), Timeout: int32(10 + r.Intn(400)), Alias: g.alias(), DataId: d, CommitId: d,
 			Size: uint64(1 + r.Intn(2_000_000)), Operation: 1}
 		if r.Chance(10) {
 			op.Size = uint64(r.Intn(3))
@@ -1161,7 +1169,7 @@ func (g *Gen) timeoutTx() Op {
 		to := int32(4 + r.Intn(12))
 		dur := []uint64{3600, 100000, 7200, 3700}[r.Intn(4)]
 		top := Op{K: "store", Creator: gw, Provider: gw + 1, Signer: owner + 1, Owner: owner + 1, Duration: dur,
-			Replica: int32(1 + r.Intn(3)), Timeout: to, Alias: fmt.Sprintf("alias%d", g.dataSeq), DataId: d, CommitId: d,
+			Replica: int32(1 + r.Intn(3)), Timeout: to, Alias: g.alias(), DataId: d, CommitId: d,
 			Size: uint64(1 + r.Intn(2_000_000)), Operation: 1}
 		if r.Chance(20) {
 			top.PayDid, top.Creator = 11+1, 11
@@ -1235,7 +1243,7 @@ func (g *Gen) pendingTx() Op {
 		d := g.newDataId()
 		g.Datas = append(g.Datas, d)
 		op := Op{K: "store", Creator: bound, Provider: gw + 1, Sid: sid, KeyVer: keyVer(), Duration: g.durations(), Replica: int32(1 + r.Intn(2)),
-			Timeout: int32(5 + r.Intn(40)), Alias: fmt.Sprintf("alias%d", g.dataSeq), DataId: d, CommitId: d, Size: uint64(1 + r.Intn(500_000)), Operation: 1}
+			Timeout: int32(5 + r.Intn(40)), Alias: g.alias(), DataId: d, CommitId: d, Size: uint64(1 + r.Intn(500_000)), Operation: 1}
 		if r.Chance(10) {
 			op.Creator = []int{9, 8}[sid-1] // an account bound to the *other* identity
 		}
@@ -1269,7 +1277,7 @@ func (g *Gen) pendingTx() Op {
 		d := g.newDataId()
 		g.Datas = append(g.Datas, d)
 		return Op{K: "store", Creator: gw, Provider: gw + 1, Sid: sid, KeyVer: keyVer(), Duration: g.durations(), Replica: int32(1 + r.Intn(2)),
-			Timeout: int32(5 + r.Intn(40)), Alias: fmt.Sprintf("alias%d", g.dataSeq), DataId: d, CommitId: d, Size: uint64(1 + r.Intn(500_000)), Operation: 1}
+			Timeout: int32(5 + r.Intn(40)), Alias: g.alias(), DataId: d, CommitId: d, Size: uint64(1 + r.Intn(500_000)), Operation: 1}
 	case c < 70:
 		for _, s := range li.shards {
 			if s.Status == ordertypes.ShardWaiting && r.Chance(60) {
@@ -1379,7 +1387,7 @@ func (g *Gen) authTx() Op {
 		owner := g.Owners[r.Intn(len(g.Owners))]
 		d := g.newDataId()
 		return Op{K: "store", Creator: 7, Provider: 1 + 1, Signer: owner + 1, Owner: owner + 1, Duration: 3600, Replica: 1,
-			Timeout: 50, Alias: fmt.Sprintf("alias%d", g.dataSeq), DataId: d, CommitId: d, Size: 1000, Operation: 1}
+			Timeout: 50, Alias: g.alias(), DataId: d, CommitId: d, Size: 1000, Operation: 1}
 	case 14: // ready / complete / migrate naming the right gateway or provider, sent by the adversary
 		if o == nil {
 			break
@@ -1394,12 +1402,12 @@ func (g *Gen) authTx() Op {
 		owner := g.Owners[r.Intn(len(g.Owners))]
 		d := g.newDataId()
 		return Op{K: "store", Creator: adv, Provider: 6 + 1, PropProvider: honest + 1, Signer: owner + 1, Owner: owner + 1, Duration: 3600, Replica: 1,
-			Timeout: 50, Alias: fmt.Sprintf("alias%d", g.dataSeq), DataId: d, CommitId: d, Size: 1000, Operation: 1}
+			Timeout: 50, Alias: g.alias(), DataId: d, CommitId: d, Size: 1000, Operation: 1}
 	case 1: // hot key of honest node 1 claiming node 1 for a proposal naming another gateway
 		owner := g.Owners[r.Intn(len(g.Owners))]
 		d := g.newDataId()
 		return Op{K: "store", Creator: 7, Provider: 1 + 1, PropProvider: 2 + 1, Signer: owner + 1, Owner: owner + 1, Duration: 3600, Replica: 1,
-			Timeout: 50, Alias: fmt.Sprintf("alias%d", g.dataSeq), DataId: d, CommitId: d, Size: 1000, Operation: 1}
+			Timeout: 50, Alias: g.alias(), DataId: d, CommitId: d, Size: 1000, Operation: 1}
 	case 2: // sponsor: somebody else's payment DID
 		owner := g.Owners[r.Intn(len(g.Owners))]
 		d := g.newDataId()
@@ -1410,7 +1418,7 @@ func (g *Gen) authTx() Op {
 		// … declaring an honest gateway, the payer's own account, or nothing as the provider it acts for
 		prov := []int{honest + 1, payer + 1, honest + 1, 0}[r.Intn(4)]
 		return Op{K: "store", Creator: adv, Provider: prov, Signer: owner + 1, Owner: owner + 1, PayDid: payer + 1, Duration: 3600, Replica: 1,
-			Timeout: 50, Alias: fmt.Sprintf("alias%d", g.dataSeq), DataId: d, CommitId: d, Size: 1000, Operation: 1}
+			Timeout: 50, Alias: g.alias(), DataId: d, CommitId: d, Size: 1000, Operation: 1}
 	case 3: // update of a victim's model signed by the adversary's DID with a commit id embedding the data id
 		if m == nil {
 			break
@@ -1682,7 +1690,7 @@ func (g *Gen) smallTx(li liveInfo) Op {
 		owner := g.Owners[r.Intn(len(g.Owners))]
 		d := g.newDataId()
 		return Op{K: "store", Creator: owner, Provider: n + 1, Signer: owner + 1, Owner: owner + 1, Duration: g.durations(), Replica: 1,
-			Timeout: int32(10 + r.Intn(100)), Alias: fmt.Sprintf("alias%d", g.dataSeq), DataId: d, CommitId: d, Size: uint64(1 + r.Intn(1000)), Operation: 1}
+			Timeout: int32(10 + r.Intn(100)), Alias: g.alias(), DataId: d, CommitId: d, Size: uint64(1 + r.Intn(1000)), Operation: 1}
 	case 6:
 		return Op{K: "create", Creator: 1 + r.Intn(11)}
 	default:
